@@ -26,6 +26,8 @@ NT_RULE = ('reaction strings over names from the stated grammar (letter/(/*/_ fi
 REQUIRED_ORACLES = ['S1', 'S2', 'S3', 'S4', 'S5']
 REQUIRED_CLASSES = ['print:ts', 'print:decimal', 'print:near_integer', 'print:custom_delim', 'print:space',
                     'parse:repeat', 'parse:decimal', 'parse:omitted', 'parse:ts', 'parse:blanks', 'parse:ring_file',
+                    'parse:padded_delimiter_core_inside_token', 'print:padded_delimiter_core_inside_token',
+                    'parse:list_of_real_species', 'parse:list_with_Nasa9', 'balance:non_dyadic_same_terms',
                     'unknown:reactant', 'unknown:product', 'unknown:ts',
                     'balance:balanced', 'balance:off_by_one', 'balance:off_by_quarter', 'balance:ts_only',
                     'balance:missing_element', 'balance:empty_composition', 'balance:zero_count_entry', 'formula:repeat', 'formula:omitted_count', 'formula:three_letter']
@@ -39,8 +41,8 @@ ASSUMPTIONS = ['delimiters that occur inside a species name or inside the printe
 
 NAME_FIRST = 'ABCDEFGHKLMNOPRSTXYZabcdhmnoprst(*_'
 NAME_REST = 'ABCDHNOPSabcdeghilnorst0123456789()*_'
-SPECIES_DELIMS = ['+', '+', '+', '.', '&', ' + ', ',', '++', ' plus ']
-REACTION_DELIMS = ['=', '=', '<=>', '>>', '->', ' = ', '==>', '<->']
+SPECIES_DELIMS = ['+', '+', '+', '.', '&', ' + ', ',', '++', ' plus ', ' . ', ' . ', ' * ', ' _ ', ' 0 ']
+REACTION_DELIMS = ['=', '=', '<=>', '>>', '->', ' = ', '==>', '<->', ' . . ', ' ) ']
 FORMATS = ['.2f', '.2f', '.1f', '.3f', '.4f', '.6f', 'g', '.3g', '.6g', '.0f']
 
 
@@ -56,7 +58,9 @@ class _Sp:
 def _name(rng, taken, forbid):
     for _ in range(100):
         n = rng.choice(NAME_FIRST) + ''.join(rng.choice(NAME_REST) for _ in range(rng.randint(0, 7)))
-        if n in taken or any(f.strip() and f.strip() in n for f in forbid):
+        # names have no blanks: a blank-padded delimiter cannot occur inside one, whatever its core character
+        # (a name that IS the core, surrounded by the blanks a writer may add, would spell the delimiter)
+        if n in taken or any(f.strip() and ((f == f.strip() and f in n) or n == f.strip()) for f in forbid):
             continue
         return n
     raise core.HarnessError('no name')
@@ -92,8 +96,8 @@ def _gen_print(rng):
         d = rng.choice([1e-7, -1e-7, 1e-9, -1e-9, -2.3e-16 * k, 4.5e-16 * k])
         spec['reactants'][0][1] = k + d
         spec['near_integer'] = True
-    if sd.strip() == '.' or '.' in rd:
-        # "." inside numerals would be ambiguous: integer coefficients only
+    if sd == '.' or ('.' in rd and rd == rd.strip()):
+        # "." inside numerals would be ambiguous: integer coefficients only (a blank-padded " . " is not)
         for part in ('reactants', 'products', 'ts'):
             for p in spec[part] or []:
                 p[1] = float(round(p[1])) or 1.0
@@ -121,7 +125,7 @@ def _gen_parse(rng, ring=False):
         nm = _name(rng, taken, [sd, rd])
         taken.append(nm)
         pool.append(nm)
-    intonly = sd.strip() == '.' or '.' in rd
+    intonly = sd == '.' or ('.' in rd and rd == rd.strip())
 
     def side(n, allow_repeat=True):
         toks = []
@@ -170,8 +174,28 @@ def _gen_unknown(rng):
 ELS = ['H', 'C', 'O', 'N', 'Pt', 'Ni']
 
 
+def _gen_balance_nondyadic(rng):
+    """non-dyadic amounts (0.1, 0.2, 1/3 ...): the two sides carry the SAME (count, coefficient) terms per
+    element, at most two per side and element, in another order -- the exact totals agree and so do the
+    floating-point sums (a + b == b + a); optionally one count is then moved by a whole unit"""
+    els = rng.sample(ELS, rng.randint(1, 3))
+    comp = {e: rng.choice([1, 2, 3, 4, 6, 8]) for e in els}
+    c1, c2 = rng.sample([0.1, 0.2, 0.3, 0.7, 1.1, 0.15, 0.45, 2.3, round(1 / 3, 4)], 2)
+    reactants = [[{'name': 'A', 'elements': dict(comp)}, c1], [{'name': 'B', 'elements': dict(comp)}, c2]]
+    products = [[{'name': 'C', 'elements': dict(comp)}, c2], [{'name': 'D', 'elements': dict(comp)}, c1]]
+    ts = [[{'name': 'TS1', 'elements': dict(comp)}, c2], [{'name': 'TS2', 'elements': dict(comp)}, c1]] \
+        if rng.random() < 0.4 else None
+    mode = rng.choice(['balanced', 'balanced', 'off_by_one'])
+    if mode == 'off_by_one':
+        products[rng.randrange(2)][0]['elements'][els[0]] += 1
+    return {'kind': 'balance', 'mode': mode, 'reactants': reactants, 'products': products, 'ts': ts,
+            'non_dyadic': True}
+
+
 def _gen_balance(rng):
     """build a balanced reaction, then possibly perturb it"""
+    if rng.random() < 0.15:
+        return _gen_balance_nondyadic(rng)
     els = rng.sample(ELS, rng.randint(1, 4))
     def sp(i):
         return {'name': 'S%d' % i, 'elements': {e: rng.choice([1, 2, 3, 4, 0.5, 1.25, 6]) for e in
@@ -352,6 +376,9 @@ def _print_case(spec, ctx):
                     stoich_format=fmt, stoich_space=spec['space'])
     if text is core.NOVALUE:
         return
+    body = text.replace(sd, '\x00').replace(rd, '\x00')
+    if any(d != d.strip() and d.strip() and d.strip() in body for d in (sd, rd)):
+        ctx.cls('print:padded_delimiter_core_inside_token')
     back = ctx.call('S1', dict(mech, step='from_string'), Reaction.from_string, text, dict(pool),
                     species_delimiter=sd, reaction_delimiter=rd)
     if back is core.NOVALUE:
@@ -407,11 +434,44 @@ def _classify_parse(spec, ctx):
     ctx.nontrivial(nt)
 
 
+def _real_species(name, k):
+    """a real pMuTT species object (the parser only needs .name, but containers of real objects are what users
+    pass; Nasa9 is itself iterable)"""
+    import numpy as np
+    from pmutt.empirical.nasa import Nasa, Nasa9, SingleNasa9
+    from pmutt.empirical.shomate import Shomate
+    from pmutt.statmech import StatMech
+    kind = k % 4
+    if kind == 0:
+        return Nasa9(name=name, nasas=[SingleNasa9(T_low=200., T_high=1000., a=np.arange(1., 10.)),
+                                       SingleNasa9(T_low=1000., T_high=6000., a=np.arange(2., 11.))])
+    if kind == 1:
+        return Nasa(name=name, T_low=200., T_mid=1000., T_high=3000., a_low=np.ones(7), a_high=np.ones(7))
+    if kind == 2:
+        return Shomate(name=name, T_low=200., T_high=3000., a=np.ones(8))
+    return StatMech(name=name)
+
+
+def _padded_core_in_tokens(spec):
+    """a blank-padded delimiter whose core also occurs inside a numeral or a name of the string"""
+    toks = [t for st in spec.get('states', []) for t in st]
+    body = ''.join(t[0] + t[-1] for t in toks)
+    return any(d != d.strip() and d.strip() and d.strip() in body for d in (spec['sd'], spec['rd']))
+
+
 def _parse_case(spec, ctx, mech_extra=None):
     from pmutt.reaction import Reaction
     _classify_parse(spec, ctx)
     sd, rd = spec['sd'], spec['rd']
-    pool = {n: _Sp(n) for n in spec['pool']}
+    if _padded_core_in_tokens(spec):
+        ctx.cls('parse:padded_delimiter_core_inside_token')
+    if spec.get('as_list') and (ctx.case_index or 0) % 2 == 0:
+        pool = {n: _real_species(n, k) for k, n in enumerate(spec['pool'])}
+        ctx.cls('parse:list_of_real_species')
+        if any(type(v).__name__ == 'Nasa9' for v in pool.values()):
+            ctx.cls('parse:list_with_Nasa9')
+    else:
+        pool = {n: _Sp(n) for n in spec['pool']}
     species = list(pool.values()) if spec.get('as_list') else dict(pool)
     mech = dict(mech_extra or {}, sd='default' if sd == '+' else 'custom', rd='default' if rd == '=' else 'custom')
     rxn = ctx.call('S2', dict(mech, step='from_string'), Reaction.from_string, spec['text'], species,
@@ -487,6 +547,8 @@ def _unknown_case(spec, ctx):
 def _balance_case(spec, ctx):
     from pmutt.reaction import Reaction
     ctx.cls('balance:' + spec['mode'])
+    if spec.get('non_dyadic'):
+        ctx.cls('balance:non_dyadic_same_terms')
     if any(not s_['elements'] for s_, _ in spec['reactants'] + spec['products']):
         ctx.cls('balance:empty_composition')
     if any(v == 0 for s_, _ in spec['reactants'] + spec['products'] for v in s_['elements'].values()):
@@ -508,6 +570,8 @@ def _balance_case(spec, ctx):
     balanced = total(spec['reactants']) == total(spec['products']) and \
         (spec['ts'] is None or total(spec['ts']) == total(spec['reactants']))
     mech = {'mode': spec['mode'], 'has_ts': spec['ts'] is not None}
+    if spec.get('non_dyadic'):
+        mech['amounts'] = 'non_dyadic'
     if (spec['mode'] == 'balanced') != balanced:
         raise core.HarnessError('balance generator inconsistent')
     try:
